@@ -8,4 +8,8 @@ open Emboss.Json
 #print axioms C18_bigint
 #print axioms C18_set_unset
 #print axioms C18_header_equal
+#print axioms C18_from_dict_wf
+#print axioms C18_reread_stable
+#print axioms C18_from_dict_wf_ir
 #print axioms Emboss.Json.Generated.schema_ok
+#print axioms Emboss.Json.Generated.schema_ok_strict
